@@ -422,7 +422,7 @@ def missing_pieces(ctx, env, watch):
 
 
 # ------------------------------------------------------------------ MP4 input
-REPORTED = ('ValueError', 'struct.error', 'error', 'EOFError', 'OSError', 'IOError', 'AssertionError', 'OverflowError', 'UnicodeDecodeError',
+REPORTED = ('ValueError', 'struct.error', 'error', 'ReadError', 'EOFError', 'OSError', 'IOError', 'AssertionError', 'OverflowError', 'UnicodeDecodeError',
             'IndexError', 'KeyError')
 
 
@@ -490,7 +490,8 @@ def mp4_fuzz(ctx, watch):
     from .. import boxwalk
     rng = ctx.rng
     srcs = mp4_sources()
-    n = 120 if ctx.quick() else 6000
+    n = 120 if ctx.quick() else 2500
+    limit = 6                    # seconds; intact fixture boxes parse in milliseconds
     for i in range(n):
         name, data, enc = rng.choice(srcs)
         kind, edits = corrupt(rng, data)
@@ -498,7 +499,7 @@ def mp4_fuzz(ctx, watch):
         ctx.count('impl:mp4-corrupt')
         inp = {'source': name, 'mutation': kind, 'edits': edits, 'length': len(bad)}
         for lazy in (False, True):
-            signal.alarm(LIMIT_S)
+            signal.alarm(limit)
             try:
                 opts = mp4.Options(lazy_load=lazy, mode='r', iv_size=8 if enc else None)
                 atoms = mp4.Mp4Atom.load(BufferedReader(None, data=bad), options=opts, use_wrapper=True)
@@ -506,7 +507,7 @@ def mp4_fuzz(ctx, watch):
                     a.toJSON()
                 ctx.dist('mp4:%s:accepted' % kind)
             except TimeoutError:
-                ctx.violation('Mp4Atom.load (%s) on %s after %s did not finish within %d s' % ('lazy' if lazy else 'eager', name, kind, LIMIT_S),
+                ctx.violation('Mp4Atom.load (%s) on %s after %s did not finish within %d s' % ('lazy' if lazy else 'eager', name, kind, limit),
                               inp, key='mp4:HANG:%s' % kind)
             except MemoryError:
                 ctx.violation('Mp4Atom.load on %s after %s ran out of memory' % (name, kind), inp, key='mp4:MemoryError')
